@@ -553,13 +553,44 @@ example : rangeCheck 4 (-1) = .ok 3 := by decide
 
 /-! ### Operator ⋆ operator shortcuts on the internal tensors (BlockDiag @ BlockDiag, Diag @ Diag, ConstantDiag ± ConstantDiag) -/
 
-/-- **`BlockDiag @ BlockDiag` accepts exactly what torch accepts for the two dense block-diagonal matrices, with torch's
-shape** — for all batch shapes `B`, `B'`, block counts `nb`, `nb'` and block sizes `k`, `j`: the block-wise shortcut
-`BlockDiag(base @ other.base)` is taken only for EQUAL base shapes, every other pair meets the base guard. -/
+/-- **`BlockDiag @ BlockDiag` (guard first, then the block-wise shortcut for EQUAL base shapes) accepts exactly what torch accepts
+for the two dense block-diagonal matrices, with torch's shape** — for all batch shapes `B`, `B'`, block counts `nb`, `nb'` and
+block sizes `k`, `j`. -/
 theorem blockDiagPairMatmul_iff_torch (B B' : List Nat) (nb k nb' j : Nat) (s : List Nat) :
     blockDiagPairMatmul (B ++ [nb, k, k]) (B' ++ [nb', j, j]) = .ok s ↔
       torchMatmulShape? (B ++ [nb * k, nb * k]) (B' ++ [nb' * j, nb' * j]) = some s := by
   simp only [blockDiagPairMatmul, blockDiagShape_append]
+  cases hgd : matmulBroadcastShape (B ++ [nb * k, nb * k]) (B' ++ [nb' * j, nb' * j]) with
+  | error e =>
+    have hn := (matmulBroadcastShape_error_iff_torch_none B (nb * k) (nb * k) (B' ++ [nb' * j, nb' * j])).mp ⟨e, hgd⟩
+    simp [hn]
+  | ok g =>
+    have htg := (matmulBroadcastShape_iff_torch B (nb * k) (nb * k) (B' ++ [nb' * j, nb' * j]) g).mp hgd
+    by_cases he : B ++ [nb, k, k] = B' ++ [nb', j, j]
+    · obtain ⟨hB, ht⟩ := List.append_inj' he (by simp)
+      subst hB
+      simp only [List.cons.injEq, and_true] at ht
+      obtain ⟨rfl, rfl, _⟩ := ht
+      have h1 : B ++ [nb, k, k] = (B ++ [nb]) ++ [k, k] := by simp
+      have hg : matmulBroadcastShape (B ++ [nb, k, k]) (B ++ [nb, k, k]) = .ok (B ++ [nb, k, k]) := by
+        rw [h1, matmulBroadcastShape_iff_torch, torch_mm_mat]
+        simp [broadcast_self]
+      simp only [if_true, blockDiagOfBaseProduct, hg, blockDiagShape_append, torch_mm_mat, broadcast_self,
+        Option.map_some]
+      constructor
+      · intro h; cases h; rfl
+      · intro h; cases h; rfl
+    · simp only [he, if_false, htg]
+      constructor
+      · intro h; cases h; rfl
+      · intro h; cases h; rfl
+
+/-- Statement about the PREVIOUS code (before 53611b1, shortcut tried before any guard): with the equal-base-shape condition
+it, too, accepted exactly what torch accepts. -/
+theorem blockDiagPairMatmulUnguarded_iff_torch (B B' : List Nat) (nb k nb' j : Nat) (s : List Nat) :
+    blockDiagPairMatmulUnguarded (B ++ [nb, k, k]) (B' ++ [nb', j, j]) = .ok s ↔
+      torchMatmulShape? (B ++ [nb * k, nb * k]) (B' ++ [nb' * j, nb' * j]) = some s := by
+  simp only [blockDiagPairMatmulUnguarded, blockDiagShape_append]
   by_cases he : B ++ [nb, k, k] = B' ++ [nb', j, j]
   · obtain ⟨hB, ht⟩ := List.append_inj' he (by simp)
     subst hB
@@ -577,7 +608,8 @@ theorem blockDiagPairMatmul_iff_torch (B B' : List Nat) (nb k nb' j : Nat) (s : 
   · simp only [he, if_false]
     exact matmulBroadcastShape_iff_torch B (nb * k) (nb * k) _ s
 
-/-- Why the condition must compare the WHOLE base shape: with "same block size" only, a 1-block 3×3 operator times a
+/-- Statement about the PREVIOUS (unguarded) structure — why its condition had to compare the WHOLE base shape, and why the
+guard now comes first: with "same block size" only, a 1-block 3×3 operator times a
 2-block 6×6 operator is accepted (the size-1 block dimension broadcasts inside `base @ base`) and yields a 6×6 result,
 although torch refuses (3×3)@(6×6); likewise against a batched base, in both orders. -/
 theorem blockDiagPairMatmulLoose_counterexample :
